@@ -665,3 +665,65 @@ def t_eq_sound(k1, k2):
         return w, thunk, {"kinds": [k1, k2], "clause": "eq", "timeout_ms": TIMEOUT_MS, "retry_factor": 1, "fail_fast": True}
 
     return build
+
+
+# --------------------------------------------------------------------------------------------------
+# C10: value-dependent types at the type level
+
+
+def t_sc_dependent(k):
+    """A value-dependent type is applicable at the type level exactly when its bound is: for a non-dependent
+    type c, subclasscheck(c, T) == SC(c, bound(T)); no dependent type is a subtype of another."""
+
+    def build():
+        w = MroWorld(unfold=0, sc_unfold=1)
+        c, T = _pair_consts()
+
+        def thunk(I):
+            I.assume(kind(T.t) == K[k])
+            I.assume(c.t != T.t)
+            I.assume(z3.Not(is_kind(c.t, ["Union", "Inter", "Exactly", "Strict", "HasMethod", "ClassCheck", "PyUnion"])))  # c: a class, a generic or another dependent type
+            exp = z3.If(is_kind(c.t, DEP), z3.BoolVal(False), SC(c.t, base(T.t)))
+            harness(SC_MEANING_H, "mro")(I, c, T, ZV(exp, "bool"))
+
+        return w, thunk, {"kinds": ["*", k], "clause": "dependent_applicable_iff_bound", "timeout_ms": TIMEOUT_MS, "retry_factor": 1, "fail_fast": True}
+
+    return build
+
+
+def t_dep_instancecheck():
+    """DependentType.__instancecheck__: isinstance(v, T) == isinstance(v, bound) and check(v), and the user's
+    check is evaluated only on a path where isinstance(v, bound) holds (short-circuit)."""
+    from pyvc.interp import Builtin, SymObj
+    from pyvc.world import World
+
+    w = World()
+    w.inline("dependent:DependentType.__instancecheck__")
+    w.is_singleton = lambda I, z, other: False
+    inb = z3.Bool("isinstance_v_bound")
+    chk = z3.Bool("check_v")
+    st = {}
+
+    class DT(SymObj):
+        def py_getattr(self, I, name):
+            if name == "bound":
+                return "BOUND"
+            if name == "check":
+
+                def check(I, v):
+                    st["check_pc"] = list(I.path.pc)
+                    I.require(inb, "user_check_evaluated_only_under_isinstance_of_bound")
+                    return ZV(chk, "bool")
+
+                return Builtin("check", check)
+            raise OutOfSubset(name)
+
+    w.isinstance_ = lambda I, x, cls: inb if cls == "BOUND" else (_ for _ in ()).throw(OutOfSubset("isinstance"))
+
+    def thunk(I):
+        r = I.call_repo("dependent:DependentType.__instancecheck__", [DT(), "VALUE"], {})
+        t = I.truth(r)
+        t = z3.BoolVal(t) if isinstance(t, bool) else t
+        I.require(t == z3.And(inb, chk), "instancecheck_is_bound_and_condition")
+
+    return w, thunk, {"clause": "instancecheck"}
